@@ -56,8 +56,26 @@ fn main() {
             // kmc sim <cfgfile> d:a t:5 u:a ...  — prints the parsed output trace
             sim::install_panic_hook();
             let cfg = std::fs::read_to_string(&args[2]).expect("cfg file");
-            let h = sim::hist_parse(&args[3..].join(" ")).expect("history");
-            match sim::run_fresh(&cfg, &h) {
+            // optional: --file=<name>:<path> arguments provide includable files
+            let mut files = sim::Files::default();
+            let mut rest = vec![];
+            for a in &args[3..] {
+                if let Some(f) = a.strip_prefix("--file=") {
+                    if let Some((n, p)) = f.split_once(':') {
+                        files.insert(n.to_string(), std::fs::read_to_string(p).expect("included file"));
+                    }
+                } else {
+                    rest.push(a.clone());
+                }
+            }
+            let h = sim::hist_parse(&rest.join(" ")).expect("history");
+            let run = || -> Result<(sim::Sim, sim::Trace), String> {
+                let mut s = sim::Sim::new_with_files(&cfg, files.clone())?;
+                s.run(&h)?;
+                let t = s.trace();
+                Ok((s, t))
+            };
+            match run() {
                 Ok((s, t)) => {
                     println!("{}", sim::trace_to_string(&t));
                     if std::env::var("KMC_DIGEST").is_ok() {
